@@ -3775,7 +3775,7 @@ class AllConnGraph(nx.DiGraph):
         if not src_inds_list:
             return None
         elif len(src_inds_list) == 1:
-            return src_inds_list[0].shaped_array()
+            return idx_list_to_index_array(src_inds_list)
         else:
             root = self.get_root(node)
             root_meta = self.nodes[root]['attrs']
